@@ -27,6 +27,8 @@ import (
 	"net/http"
 	"net/http/httptest"
 	"net/http/httptrace"
+	"net/textproto"
+	"sort"
 	"strings"
 	"sync"
 	"testing"
@@ -39,6 +41,7 @@ import (
 	"go.opentelemetry.io/collector/component"
 	"go.opentelemetry.io/collector/component/componenttest"
 	"go.opentelemetry.io/collector/config/configcompression"
+	"go.opentelemetry.io/collector/config/configopaque"
 )
 
 // ---- codecs called directly ----------------------------------------------------------------------
@@ -231,6 +234,12 @@ type c16Case struct {
 	preset  []string // Content-Encoding values set by the caller (nil = header absent)
 	body    []byte
 	nilBody bool
+	// ClientConfig.Headers: a Content-Encoding entry (any spelling of the key), and/or an unrelated one
+	hdrSet   bool
+	hdrKey   string
+	hdrVal   string
+	otherHdr bool
+	rawCE    []string // values the caller stored under the non-canonical key "content-encoding"
 	chunked bool   // the body is handed over as an opaque reader: no length declared, sent chunked
 	method  string // not an input of the model: nothing may depend on it
 	rerr    bool // the request body's Read fails after delivering the bytes
@@ -264,8 +273,10 @@ type c16Case struct {
 	replayed   bool
 	replayFail string
 	warmFail   string
+	poisonOdd  string
 	doFail     string
 	callerMutated bool
+	mutDetail     string
 	firstSeen  bool
 	firstCE    []string
 	firstBody  []byte
@@ -380,7 +391,18 @@ func (d *c16DirectRT) RoundTrip(req *http.Request) (*http.Response, error) {
 		sbody = struct{ io.Reader }{sbody} // httptest.NewRequest: unknown reader type => ContentLength -1
 	}
 	sreq := httptest.NewRequest(req.Method, req.URL.String(), sbody)
-	sreq.Header = req.Header.Clone()
+	// what the wire does to the header: net/http writes the keys in byte order and the receiver
+	// canonicalises each key, appending the values in the order of arrival
+	keys := make([]string, 0, len(req.Header))
+	for k := range req.Header {
+		keys = append(keys, k)
+	}
+	sort.Strings(keys)
+	sreq.Header = http.Header{}
+	for _, k := range keys {
+		ck := textproto.CanonicalMIMEHeaderKey(k)
+		sreq.Header[ck] = append(sreq.Header[ck], req.Header[k]...)
+	}
 	rec := httptest.NewRecorder()
 	func() {
 		defer func() {
@@ -467,6 +489,12 @@ func c16Run(t *testing.T, cs *c16Case) {
 	cc.Compression = configcompression.Type(cs.typ)
 	cc.CompressionParams = configcompression.CompressionParams{Level: configcompression.Level(cs.level)}
 	cc.DisableKeepAlives = !(cs.replay && cs.net)
+	if cs.hdrSet {
+		cc.Headers[cs.hdrKey] = configopaque.String(cs.hdrVal)
+	}
+	if cs.otherHdr {
+		cc.Headers["X-Scope-OrgID"] = "c16"
+	}
 	if err := cc.Validate(); err != nil {
 		cs.clientOK, cs.cstate = false, 1
 		return
@@ -481,11 +509,22 @@ func c16Run(t *testing.T, cs *c16Case) {
 	url := "http://c16.invalid/v1/x"
 	var ts *httptest.Server
 	var base http.RoundTripper // the transport below the package's round trippers
-	crt, compressing := client.Transport.(*compressRoundTripper)
-	if compressing {
-		base = crt.rt
-	} else {
-		base = client.Transport
+	// the chain ToClient built: [compressRoundTripper ->] [headerRoundTripper ->] transport
+	// (walked in whatever order they are stacked; the tap goes below the innermost of them)
+	setNext := func(rt http.RoundTripper) { client.Transport = rt }
+	base = client.Transport
+walk:
+	for {
+		switch v := base.(type) {
+		case *compressRoundTripper:
+			setNext = func(rt http.RoundTripper) { v.rt = rt }
+			base = v.rt
+		case *headerRoundTripper:
+			setNext = func(rt http.RoundTripper) { v.transport = rt }
+			base = v.transport
+		default:
+			break walk
+		}
 	}
 	if cs.net {
 		ts = httptest.NewUnstartedServer(nil)
@@ -501,11 +540,7 @@ func c16Run(t *testing.T, cs *c16Case) {
 		base = &c16DirectRT{h: chain}
 	}
 	tap := &c16Tap{next: base, cs: cs}
-	if compressing {
-		crt.rt = tap
-	} else {
-		client.Transport = tap
-	}
+	setNext(tap)
 	if cs.poison {
 		// a request whose body fails half-way: compress() returns the copy error and puts the
 		// half-used writer back into the (package-global) pool; the next request must not see it
@@ -515,11 +550,11 @@ func c16Run(t *testing.T, cs *c16Case) {
 		req0, _ := http.NewRequestWithContext(ctx, http.MethodPost, url, &c16FailBody{data: c16Bytes(vNewRand(uint64(len(cs.body))), 300, 2)})
 		if resp0, err0 := client.Do(req0); err0 == nil {
 			_ = resp0.Body.Close()
-			t.Fatalf("request with a failing body did not fail (type %q)", cs.typ)
+			cs.poisonOdd = "a request whose body fails while being compressed did not fail"
+		} else if chain.cs.captured || cs.ran {
+			cs.poisonOdd = "a request whose body fails while being compressed reached the server"
 		}
-		if chain.cs.captured || cs.ran {
-			t.Fatalf("request with a failing body reached the server (type %q)", cs.typ)
-		}
+		cs.ran = false
 		chain.cs = keep
 		tap.cs = keep
 	}
@@ -568,6 +603,10 @@ func c16Run(t *testing.T, cs *c16Case) {
 	if cs.preset != nil {
 		req.Header["Content-Encoding"] = append([]string(nil), cs.preset...)
 	}
+	if len(cs.rawCE) > 0 {
+		// stored under a non-canonical spelling of the key, as a caller writing to the header map can
+		req.Header["content-encoding"] = append([]string(nil), cs.rawCE...)
+	}
 	if cs.replay && cs.net {
 		// replayable for net/http: body can be rewound and the request is declared idempotent.  The
 		// connection is dropped only if it really is a reused one (otherwise net/http does not retry).
@@ -584,8 +623,9 @@ func c16Run(t *testing.T, cs *c16Case) {
 	}
 	resp, err := client.Do(req)
 	cs.replayed = cs.firstSeen
-	if got := req.Header.Values("Content-Encoding"); strings.Join(got, "\x00") != strings.Join(cs.preset, "\x00") || len(got) != len(cs.preset) {
+	if got := req.Header.Values("Content-Encoding"); !cs.hdrSet && (strings.Join(got, "\x00") != strings.Join(cs.preset, "\x00") || len(got) != len(cs.preset)) {
 		cs.callerMutated = true
+		cs.mutDetail = fmt.Sprintf("header now %q, raw %q otherHdr=%v net=%v replay=%v", req.Header, cs.rawCE, cs.otherHdr, cs.net, cs.replay)
 	}
 	if err != nil && cs.firstSeen && (cs.wireErr || !cs.captured) {
 		// the transport replayed (or gave up replaying) and the replay did not get through
@@ -704,11 +744,14 @@ func c16Oracle(out *vOut, cs *c16Case, term string) {
 	if cs.warmFail != "" {
 		fail("client-request-failed", "a body-less GET through the same client failed: %s", cs.warmFail)
 	}
+	if cs.poisonOdd != "" {
+		fail("client-request-failed", "%s", cs.poisonOdd)
+	}
 	if cs.doFail != "" {
 		fail("client-request-failed", "the request failed in the transport: %s", cs.doFail)
 	}
 	if cs.callerMutated {
-		fail("caller-request-mutated", "the caller's request was modified by the round tripper")
+		fail("caller-request-mutated", "the caller's request was modified by the round tripper: %s", cs.mutDetail)
 	}
 	if !cs.clientOK {
 		return
@@ -734,12 +777,14 @@ func c16Oracle(out *vOut, cs *c16Case, term string) {
 	}
 	// preset Content-Encoding: the body is not compressed again, the header is left alone
 	if c16First(cs.preset) != "" {
-		if !bytes.Equal(cs.wbody, cs.body) || strings.Join(cs.wce, ",") != strings.Join(cs.preset, ",") {
+		wantCE := append(append([]string(nil), cs.preset...), cs.rawCE...)
+		if !bytes.Equal(cs.wbody, cs.body) || (!cs.hdrSet && strings.Join(cs.wce, "\x00") != strings.Join(wantCE, "\x00")) {
 			fail("preset-recompressed", "request with preset Content-Encoding was modified by the client: wire ce=%q", cs.wce)
 		}
 	}
 	// round trip
-	if compressing && len(cs.preset) == 0 && c16In(cs.typ, cs.enabled()) && !cs.isCustom(cs.typ) &&
+	if compressing && len(cs.preset) == 0 && len(cs.rawCE) == 0 && (!cs.hdrSet || cs.hdrVal == cs.typ) &&
+		c16In(cs.typ, cs.enabled()) && !cs.isCustom(cs.typ) &&
 		int64(len(cs.body)) <= L && int64(len(cs.wbody)) <= L {
 		if cs.kind != 0 || cs.errc != 0 || !bytes.Equal(cs.data, cs.body) {
 			fail("roundtrip", "handler did not read exactly the client's bytes")
@@ -877,8 +922,12 @@ func (cs *c16Case) term() string {
 			dt = append(dt, vPair(vN(uint64(k)), d))
 		}
 	}
-	return fmt.Sprintf("EC %s %s %s %s %s %s %s %s %s %s %s %s %s %s %s %s %s %s %s %s %s %s %s %s",
-		vStr(cs.typ), vZ(int64(cs.level)), c16Strs(cs.preset), body, vBool(cs.chunked), vBool(cs.rerr), vBool(cs.cerr),
+	hdr := "None"
+	if cs.hdrSet {
+		hdr = "(Some " + vStr(cs.hdrVal) + ")"
+	}
+	return fmt.Sprintf("EC %s %s %s %s %s %s %s %s %s %s %s %s %s %s %s %s %s %s %s %s %s %s %s %s %s %s",
+		vStr(cs.typ), vZ(int64(cs.level)), hdr, c16Strs(cs.preset), c16Strs(cs.rawCE), body, vBool(cs.chunked), vBool(cs.rerr), vBool(cs.cerr),
 		vZ(cs.max), algs, custom, vList(et), c16StreamTerm(decin), vList(dt),
 		vN(uint64(cs.cstate)), c16Strs(cs.wce), vBytes(cs.wbody), vZ(cs.wclObs()), cs.rewindObs(),
 		vN(uint64(cs.kind)), vZ(int64(cs.statusObs())), c16Strs(cs.hceObs()), vZ(cs.clObs()), vBytes(cs.dataObs()), vN(uint64(cs.errcObs())))
@@ -1268,6 +1317,7 @@ func c16Gen(r *vRand) *c16Case {
 		c16Algs(r, cs)
 	}
 	cs.net = r.Pick(85, 15) == 1
+	c16HeadersDim(r, cs)
 	if cs.bomb {
 		c16Framing(r, cs, 65)
 	} else if strings.HasPrefix(cs.class, "adversarial") {
@@ -1276,6 +1326,30 @@ func c16Gen(r *vRand) *c16Case {
 		c16Framing(r, cs, 35)
 	}
 	return cs
+}
+
+// client `headers:` configuration and non-canonical header keys on the caller's request
+func c16HeadersDim(r *vRand, cs *c16Case) {
+	switch r.Pick(78, 14, 8) {
+	case 1:
+		cs.hdrSet = true
+		cs.hdrKey = []string{"Content-Encoding", "content-encoding", "CONTENT-ENCODING", "Content-encoding"}[r.Intn(4)]
+		vals := []string{"", "gzip", "zstd", "identity", "br", "x-id", "deflate"}
+		cs.hdrVal = vals[r.Intn(len(vals))]
+		if c16CodecOfName(cs.typ) >= 0 && r.Pick(60, 40) == 1 {
+			cs.hdrVal = cs.typ
+		}
+		cs.otherHdr = r.Bool()
+	case 2:
+		cs.otherHdr = true
+	}
+	if r.Pick(93, 7) == 1 {
+		v := []string{"gzip", "br", "", "zstd"}[r.Intn(4)]
+		if c16CodecOfName(cs.typ) >= 0 && r.Bool() {
+			v = cs.typ
+		}
+		cs.rawCE = []string{v}
+	}
 }
 
 // request framing: declared length vs. none (chunked), method.  The model's server takes the declared
@@ -1374,6 +1448,7 @@ func c16GenLarge(r *vRand, i int) *c16Case {
 	}
 	cs.algsNil = true
 	cs.net = r.Pick(70, 30) == 1
+	c16HeadersDim(r, cs)
 	c16Framing(r, cs, 50)
 	return cs
 }
@@ -1435,6 +1510,7 @@ func c16GenLargeOther(r *vRand, i int) *c16Case {
 		}
 	}
 	cs.net = r.Pick(70, 30) == 1
+	c16HeadersDim(r, cs)
 	c16Framing(r, cs, 50)
 	return cs
 }
@@ -1536,6 +1612,24 @@ func TestVerifC16(t *testing.T) {
 		}
 		if cs.chunked {
 			out.Stat("framing.client-body-without-length", 1)
+		}
+		if cs.hdrSet {
+			out.Stat("headers.content-encoding-configured", 1)
+			if c16CodecOfName(cs.typ) >= 0 && c16First(cs.preset) == "" {
+				if cs.hdrVal == cs.typ {
+					out.Stat("headers.configured-equals-compression-type", 1)
+				} else {
+					out.Stat("headers.configured-overrides-compressor", 1)
+				}
+			}
+		} else if cs.otherHdr {
+			out.Stat("headers.unrelated-only", 1)
+		}
+		if len(cs.rawCE) > 0 {
+			out.Stat("headers.noncanonical-key-on-request", 1)
+			if c16CodecOfName(cs.typ) >= 0 && c16First(cs.preset) == "" && cs.clientOK {
+				out.Stat("headers.noncanonical-preset-recompressed", 1)
+			}
 		}
 		if cs.replay {
 			if cs.replayed {
